@@ -32,6 +32,8 @@ def note_line(serial):
     serial[0] += 1
     n = serial[0]
     tags = (" %%u%d" % n if n % 2 else "") + (" #shared" if n % 3 == 0 else "") + (" +solo%d" % n if n % 5 == 0 else "")
+    # properties and page links (rows in their own SQL tables, removed and re-added with the note)
+    tags += (" k::%d" % n if n % 3 == 1 else "") + (" [[target]] [[l%d]]" % (n % 4) if n % 2 == 0 else "")
     # every fourth note has a bullet line (with a double space) under its first line
     more = "\n  * bullet  of note%d" % n if n % 4 == 1 else ""
     return "- note%d%s r1" % (n, tags) + more
@@ -164,6 +166,11 @@ def gen_history(rng, allow_unclean):
             ops.append(["rename", p, nxt]); live.discard(p); live.add(nxt); nxt += 1
         else:
             ops.append(["nextday"])
+    if rng.random() < 0.35 and len(live) >= 2:
+        # the page indexed last loses all its notes (the highest row ids become free), then another page gains notes
+        last = max(live)
+        ops += [["reindex", None]] + [["delnote", last, 0] for _ in range(4)] + [["reindex", None], ["addnote", min(live)],
+                                                                                 ["addnote", min(live)], ["reindex", None]]
     if rng.random() < 0.4 and 1 in live:
         # the same note edited on two later days (first stamp inserts the date, the second replaces it)
         j = rng.randint(0, 1)
@@ -186,11 +193,19 @@ def run_history(eng, rng, oc, allow_unclean):
         mismatch = False
         for step, op in enumerate(ops):
             with freeze_time(dt.datetime(day.year, day.month, day.day, 12)):
-                if op[0] == "create":
-                    Z.db_create(d)
-                elif op[0] == "reindex":
-                    t = op[1]
-                    Z.db_reindex(d, [os.path.join(d, page_name(k)) for k in t[0]] if t else [])
+                if op[0] in ("create", "reindex"):
+                    try:
+                        if op[0] == "create":
+                            Z.db_create(d)
+                        else:
+                            t = op[1]
+                            Z.db_reindex(d, [os.path.join(d, page_name(k)) for k in t[0]] if t else [])
+                    except Exception as e:  # noqa: BLE001
+                        # an index command that fails on a history of well-formed pages: the index cannot follow the files
+                        oc.spec_fail.append((dict(case, step=step, op=op, files=W.user_files(d)),
+                                             "db %s raised %s: %s" % (op[0], type(e).__name__, str(e)[:200]),
+                                             "every index command of the history succeeds", None))
+                        return False
                 elif op[0] == "nextday":
                     day = day + dt.timedelta(days=1)
                 else:
@@ -209,6 +224,11 @@ def run_history(eng, rng, oc, allow_unclean):
         final_idx = W.key_notes(W.dump_index(d))
         with Z.tmpdir("c06f_") as d2:
             write_tree(d2, W.user_files(d))
+            # a rebuild in place keeps the ZID counter (db create only replaces the database)
+            nid = os.path.join(d, ".zorg", "next_ids.json")
+            if os.path.exists(nid):
+                os.makedirs(os.path.join(d2, ".zorg"), exist_ok=True)
+                shutil.copy(nid, os.path.join(d2, ".zorg", "next_ids.json"))
             with freeze_time(dt.datetime(day.year, day.month, day.day, 12)):
                 Z.db_create(d2)
             fresh_idx = W.key_notes(W.dump_index(d2))
